@@ -22,6 +22,7 @@ type Event struct {
 	Rule   string        `json:"rule,omitempty"`   // advance rule
 	D      time.Duration `json:"d,omitempty"`      // advance amount (computed)
 	SameTx bool          `json:"same_tx,omitempty"` // Allocate retransmission
+	FixTx  string        `json:"fix_tx,omitempty"`  // use this fixed transaction id (shared between clients)
 	Fam    int           `json:"fam,omitempty"`    // REQUESTED-ADDRESS-FAMILY 4/6, 0 = absent
 	TCP    bool          `json:"tcp,omitempty"`
 	As     string        `json:"as,omitempty"` // authenticate as this user instead of the client's own
@@ -34,6 +35,9 @@ func (e Event) Class() string {
 		s := fmt.Sprintf("alloc(%s,L=%d", e.C, e.L)
 		if e.SameTx {
 			s += ",retx"
+		}
+		if e.FixTx != "" {
+			s += ",tx=" + e.FixTx
 		}
 		if e.Fam != 0 {
 			s += fmt.Sprintf(",fam=%d", e.Fam)
@@ -99,6 +103,10 @@ func (x *Exec) viol(tag, class string, ev Event, detail string) *Viol {
 		}
 	}
 
+	if tag == "chan-range" {
+		return &Viol{Tag: tag, Sig: tag + ":" + class, Detail: detail + " after " + after}
+	}
+
 	return &Viol{Tag: tag, Sig: fmt.Sprintf("%s:%s:after=%s", tag, class, after), Detail: detail}
 }
 
@@ -135,6 +143,12 @@ func (x *Exec) Apply(ev Event) *Viol { //nolint:gocyclo,cyclop,maintidx,gocognit
 			t := a.Tx
 			tx = &t
 		}
+		if ev.FixTx != "" {
+			var t [12]byte
+			copy(t[:], ev.FixTx)
+			tx = &t
+		}
+		isRetx := a != nil && tx != nil && *tx == a.Tx
 		gen0 := w.GenCalls
 		res := c.Request(wire.Allocate, tx, func(b *wire.B) {
 			proto := uint32(17) << 24
@@ -156,7 +170,7 @@ func (x *Exec) Apply(ev Event) *Viol { //nolint:gocyclo,cyclop,maintidx,gocognit
 			return x.viol("resp", "duplicate-response", ev, respStr(res))
 		}
 		if a != nil {
-			if ev.SameTx {
+			if isRetx {
 				if res.Resp == nil || res.Resp.Class != wire.Success {
 					return x.viol("resp", "retx-not-success", ev, respStr(res))
 				}
